@@ -235,8 +235,9 @@ class Node:
         # dictionaries of hop-by-hop ids and request sent timestamps as values.
         self._peer_waiting_answer: dict[str, dict[tuple[int, int], float]] = {}
         # An internal list that keeps track of which origin-host is expecting
-        # which answer. The list is a dictionary with message identifiers as
-        # keys and origin-hosts as answers. This is mostly required for keeping
+        # which answer. The list is a dictionary with message identifiers
+        # (connection and hop-by-hop/end-to-end identifiers, see
+        # `_origin_message_id`) as keys and origin-hosts as answers. This is mostly required for keeping
         # track of which requests have also received an answer, and for
         # retransmission checks.
         self._origin_waiting_answer: dict[str, tuple[str, float]] = {}
@@ -871,8 +872,7 @@ class Node:
         if msg.header.is_request and has_origin_host:
             # Record who originally sent a request, as this information is lost
             # by the time an answer will go out
-            message_id = (f"{msg.header.hop_by_hop_identifier}:"
-                          f"{msg.header.end_to_end_identifier}")
+            message_id = self._origin_message_id(conn, msg)
             self._origin_waiting_answer[message_id] = (
                 origin_host, time.time())
 
@@ -1087,10 +1087,19 @@ class Node:
                 self.logger.warning(
                     f"failed to reconnect to {peer.node_name}: {e}")
 
+    @staticmethod
+    def _origin_message_id(conn: PeerConnection, message: Message) -> str:
+        """Key of a request in `_origin_waiting_answer`.
+
+        Hop-by-hop identifiers are unique per connection only: two peers may
+        well have requests with equal identifiers outstanding at the same time.
+        """
+        return (f"{conn.ident}:{message.header.hop_by_hop_identifier}:"
+                f"{message.header.end_to_end_identifier}")
+
     def _record_answer(self, conn: PeerConnection, message: Message):
         """Notes the end-to-end identifier of an answer, for retransmit checks."""
-        message_id = (f"{message.header.hop_by_hop_identifier}:"
-                      f"{message.header.end_to_end_identifier}")
+        message_id = self._origin_message_id(conn, message)
         if message_id not in self._origin_waiting_answer:
             return
         origin_host, recv_time = self._origin_waiting_answer[message_id]
@@ -1379,8 +1388,7 @@ class Node:
                 f"{conn} got a CER while not waiting for one, ignoring")
             # no answer will go out for it
             self._origin_waiting_answer.pop(
-                f"{message.header.hop_by_hop_identifier}:"
-                f"{message.header.end_to_end_identifier}", None)
+                self._origin_message_id(conn, message), None)
             return
 
         answer: CapabilitiesExchangeAnswer = self._generate_answer(conn, message)
@@ -1549,7 +1557,7 @@ class Node:
         waiting = self._peer_waiting_answer.pop(conn.host_identity, {})
         for hop_by_hop_id, end_to_end_id in waiting:
             self._origin_waiting_answer.pop(
-                f"{hop_by_hop_id}:{end_to_end_id}", None)
+                f"{conn.ident}:{hop_by_hop_id}:{end_to_end_id}", None)
 
         # Check if this was the last available peer for an app and clear app
         # ready flag if so, resulting in `wait_for_ready` to block again.
@@ -1660,10 +1668,10 @@ class Node:
                 conn = connected_peer
                 break
 
-        if conn is None or conn.state not in PEER_READY_STATES:
+        if conn is not None and conn.state not in PEER_READY_STATES:
             # the request will not be answered any more
             self._origin_waiting_answer.pop(
-                f"{message_id[0]}:{message_id[1]}", None)
+                self._origin_message_id(conn, message), None)
 
         if conn is None:
             raise NotRoutable(
